@@ -5,9 +5,9 @@ from .. import oracle as o
 ID = 'C11'
 RULE = ('one record per (type, version, t, m, p, T, pwd, salt, key, aad, entry point): tag must equal the RFC 9106 transcription; t 1..4, p 1..5, '
         'm from 8p to 256 (quick) / a few thousand (thorough) including m not divisible by 4p and segment lengths > 128, tag lengths 4..300 crossing '
-        '64 and multiples of 32, empty and long inputs; both argon2_at and argon2::<T>; distinct = (type, version, t, m, p, T, api)')
+        '64 and multiples of 32, empty and long inputs; directed parameter sets of Argon2i/id whose (parameter-only) pseudo-random J1 values fall within 2^16 of 0 or 2^32;  both argon2_at and argon2::<T>; distinct = (type, version, t, m, p, T, api)')
 ASSUMPTIONS = ['pure-Python RFC 9106 model pinned by the RFC section 5 vectors; BLAKE2b from hashlib']
-FLOORS = {'evaluations': 250, 'distinct': 200, 'coverage': {'m%4p!=0:indep': 15, 'T>64:T%32==0': 10, 'version:0x10:t>1': 10, 'lanes>1': 40}}
+FLOORS = {'evaluations': 250, 'distinct': 200, 'coverage': {'extreme-j1-low': 2, 'm%4p!=0:indep': 15, 'T>64:T%32==0': 10, 'version:0x10:t>1': 10, 'lanes>1': 40}}
 ARR_T = [4, 5, 16, 31, 32, 33, 63, 64, 65, 95, 96, 97, 128, 160, 300]
 TYPES = {'d': 0, 'i': 1, 'id': 2}
 
@@ -18,6 +18,33 @@ def case(rng, ty, ver, t, m, p, T, api, plen=None):
     key = rng.data(rng.choice([0, 0, 8, 32]))
     aad = rng.data(rng.choice([0, 0, 12, 50]))
     return 'argon2 %s 0x%x %d %d %d %d %s %s %s %s %s' % (ty, ver, t, m, p, T, pwd, salt, key, aad, api)
+
+
+def extreme_j1_params(y, t, mrange, p=1):
+    """Data-independent addressing depends on the parameters only: scan parameter sets whose pseudo-random J1 values come
+    within 2^16 of 0 or 2^32 (where the reference-area mapping  area - 1 - (area * (J1^2 >> 32) >> 32)  sits on its rounding edges)."""
+    zero = [0] * 128
+    hits = []
+    for m in mrange:
+        mp = 4 * p * (m // (4 * p)); q = mp // p; SL = q // 4
+        found = None
+        for r in range(t):
+            for sl in range(4):
+                if y == 2 and not (r == 0 and sl < 2):
+                    continue
+                for lane in range(p):
+                    for ctr in range(1, (SL + 127) // 128 + 1):
+                        Z = [r, lane, sl, mp, t, y, ctr] + [0] * 121
+                        addr = o.a2_G(zero, o.a2_G(zero, Z))
+                        for idx in range((ctr - 1) * 128, min(SL, ctr * 128)):
+                            if r == 0 and sl == 0 and idx < 2:
+                                continue
+                            j1 = addr[idx % 128] & 0xffffffff
+                            if j1 < (1 << 16) or j1 >= (1 << 32) - (1 << 15):
+                                found = 'low' if j1 < (1 << 16) else 'high'
+        if found:
+            hits.append((m, found))
+    return hits
 
 
 def gen(tier, seed):
@@ -45,6 +72,14 @@ def gen(tier, seed):
                         m = rng.choice([lo, lo + 1, lo + rng.rng(1, 4 * p - 1), rng.rng(lo, 64), rng.rng(64, 256 if not thorough else 400), 4 * p * rng.rng(2, 8) + rng.rng(1, 4 * p - 1)])
                         T = rng.choice([4, 32, 32, 64, 65, 96, 100, 128])
                         yield case(rng, ty, ver, t, m, p, T, rng.choice(['at', 'at', 'arr']) if T in ARR_T else 'at')
+    # directed: parameter sets of the data-independent variants that contain an extreme J1
+    lo = 8 + (seed % 7)
+    for y, ty in ((1, 'i'), (2, 'id')):
+        for t in ((1, 2) if thorough else (1,)):
+            hits = extreme_j1_params(y, t, range(lo, 900 if thorough else 420, 1 if ty == 'i' else 2))
+            for m, kind in hits[:40 if thorough else 12]:
+                yield case(rng, ty, 0x13, t, m, 1, 32, 'at', plen=8) + ' #extreme-j1-' + kind
+                yield case(rng, ty, 0x10, t, m, 1, 16, 'at', plen=0) + ' #extreme-j1-' + kind
     if thorough:
         # segment length > 128 -> address block refresh for the data-independent variants
         for ty in ('i', 'id', 'd'):
@@ -59,7 +94,7 @@ def gen(tier, seed):
 
 
 def check(line, toks):
-    f = line.split()
+    f = line.split(' #')[0].split()
     ty, ver, t, m, p, T = f[1], int(f[2], 16), int(f[3]), int(f[4]), int(f[5]), int(f[6])
     exp = o.argon2(TYPES[ty], ver, t, m, p, T, expand(f[7]), expand(f[8]), expand(f[9]), expand(f[10])).hex()
     if toks != [exp]:
@@ -68,12 +103,15 @@ def check(line, toks):
 
 
 def classify(line):
-    f = line.split()
+    f = line.split(' #')[0].split()
     return tuple(f[1:7]) + (f[11],)
 
 
 def coverage(line, toks):
-    f = line.split()
+    body, _, ann = line.partition(' #')
+    f = body.split()
+    if ann:
+        return [ann]
     ty, ver, t, m, p, T = f[1], int(f[2], 16), int(f[3]), int(f[4]), int(f[5]), int(f[6])
     out = ['type:%s' % ty, 'version:0x%x' % ver, 'api:%s' % f[11]]
     if m % (4 * p):
